@@ -245,7 +245,7 @@ func (c *Ctx) tableMap(rule, rel, name string) (*eval.Map, *packages.Package) {
 
 func (c *Ctx) ruleEntities() {
 	const rule = "R17.entities"
-	c.R.Rule(rule, "html.EntitiesMap: for every entry k→v, decoding the reference &k; and decoding v with the HTML5 reference decoder give the same text, k is a named character reference of HTML5, v is not longer than &k; (it is copied in place) and a replacement that is itself a reference ends in ';'. TextRevEntitiesMap (html, xml): v decodes to the single byte k. xml.EntitiesMap: exactly predefined XML entities with their XML 1.0 values, and never 'lt'/'amp' decoded to a bare byte without a reverse mapping.")
+	c.R.Rule(rule, "html.EntitiesMap: for every entry k→v, decoding the reference &k; and decoding v with the HTML5 reference decoder give the same text, k is a named character reference of HTML5, v is not longer than &k; (it is copied in place) and a replacement that is itself a reference ends in ';'; a literal replacement does not start with `;`, `#`, `=`, a letter or a digit — characters that combine with a reference or an ampersand in front of them into another reference. TextRevEntitiesMap (html, xml): v decodes to the single byte k. xml.EntitiesMap: exactly predefined XML entities with their XML 1.0 values, and never 'lt'/'amp' decoded to a bare byte without a reverse mapping.")
 	if m, _ := c.tableMap(rule, "html", "EntitiesMap"); m != nil {
 		for _, e := range m.Entries {
 			k, _ := e.Key.(string)
@@ -263,6 +263,8 @@ func (c *Ctx) ruleEntities() {
 				c.R.Bad(rule, construct, c.pos(e.KeyX), "replacement longer than the reference (in-place copy would overrun)")
 			case len(v) > 1 && v[0] == '&' && v[len(v)-1] != ';':
 				c.R.Bad(rule, construct, c.pos(e.KeyX), "replacement reference lacks the terminating ';'")
+			case len(v) > 0 && v[0] != '&' && (v[0] == ';' || v[0] == '#' || v[0] == '=' || v[0] >= '0' && v[0] <= '9' || v[0] >= 'a' && v[0] <= 'z' || v[0] >= 'A' && v[0] <= 'Z'):
+				c.R.Bad(rule, construct, c.pos(e.KeyX), fmt.Sprintf("the replacement %q starts with a character that takes part in the syntax of character references: written in place of &%s; it combines with the text in front of it — `&amp&semi;` (the text `&;`) becomes `&amp;` (the text `&`), `&&num;38;` (the text `&#38;`) becomes `&#38;` (the text `&`), and in an attribute value `&not&equals;` becomes `&not=`, where the legacy name in front of `=` is no longer decoded", v, k))
 			default:
 				c.R.OK(rule, construct, c.pos(e.KeyX), fmt.Sprintf("%q == %q", dec, v))
 			}
@@ -596,6 +598,9 @@ func (c *Ctx) ruleMimeAndSVG() {
 var _ = ast.Inspect
 
 func init() {
+	mutant(&Mutant{Name: "c17-semicolon-entity-written-plain", Property: "C17", File: "html/table.go",
+		Old: "\t\"scaron\":", New: "\t\"semi\": []byte(\";\"),\n\t\"scaron\":",
+		Rule: "R17.entities", Construct: "html.EntitiesMap[semi]"})
 	mutant(&Mutant{Name: "c17-table-closes-paragraph", Property: "C17", File: "html/table.go",
 		Old: "\tTable:      blockTag, // a table does not close a paragraph in quirks mode\n", New: "\tTable:      blockTag | omitPTag,\n",
 		Rule: "R17.htmltraits", Construct: "html.tagMap[Table]"})
